@@ -1,5 +1,6 @@
 import ParryModel.Proto
 import ParryModel.C18.ModelFill3
+import ParryModel.C18.ModelSet3
 /-! C18 protocol handlers for the 3-D grid-parameter + fill model (`ModelFill3.lean`):
 `fill3` (the whole `VoxelizedVolume` after the fill, cell for cell) and `fillset3` (`VoxelSet::voxelize`).
 The real surface grid arrives as an observed input (`ni nj nk m<0/1 per cell>`), after the plain arguments.
@@ -60,9 +61,7 @@ def modelFillSet3 (x : Fill3Args) (o : Nat × Nat × Nat × Array Bool) : String
   match runFill3 x o with
   | .error e => e
   | .ok (ni, nj, nk, org, sc, g) =>
-    let vs := (cellsIn3 0 0 0 ni nj nk).filterMap fun c =>
-      let v := g.getD (idx3 ni nj c.1 c.2.1 c.2.2) .undef
-      if v = .inside then some s!"{c.1} {c.2.1} {c.2.2} 0" else if v = .surf then some s!"{c.1} {c.2.1} {c.2.2} 1" else none
+    let vs := (toVoxelSet3 ni nj nk g).toList.map fun w => s!"{w.i} {w.j} {w.k} {fb w.surf}"
     String.intercalate " " (s!"{fv3 org} {ff sc} {vs.length}" :: vs)
 
 /-! ## oracle -/
